@@ -295,8 +295,6 @@ func init() {
 	add("http/codegen.ServicesData.analyze", "header", "security schemes located in headers; there is no cookie location for schemes", "□schemes: _")
 	add("http/codegen.buildErrorsData", "header", "the goa-error response header has no cookie counterpart", "Error□: _.Name")
 	add("http/codegen/openapi/v3.responseFromExpr", "header", "OpenAPI response objects have headers only; cookies are documented as a Set-Cookie header", "□s: _")
-	add("expr.HTTPErrorExpr.Validate", "header", "upstream validates error response headers only (cookies of error responses are not checked against the error type)",
-		"_.Response.□s != nil", "!_.Response.□s.IsEmpty()", "_.Merge(_.Response.□s.Validate(\"HTTP error response □s\", _.Response))", "AsObject(_.Response.□s.Type)")
 	add("expr.HTTPResponseExpr.mapUnmappedAttrs", "header", "with SkipResponseBodyEncodeDecode the unmapped result attributes are sent as headers by design",
 		"_.□s.FindKey(_.Name)", "_.□s.Type.(*Object).Set(_.Name, _.Attribute)", "_.□s.Map(\"goa-attribute-\"+_.Name, _.Name)", "_.□s.Validation == nil", "_.□s.Validation = &ValidationExpr{}", "_.□s.Validation.AddRequired(_.Name)", "_.□s.IsEmpty()", "_.□s.Type.(*Object).Set(\"goa-attribute\", _)")
 	add("expr.HTTPServiceExpr.Validate", "header", "service-level cookies are validated with the endpoints that inherit them", "_.□s != nil", "_.Merge(_.□s.Validate(\"□s\", _))")
